@@ -497,6 +497,43 @@ def _match_concrete(c, parts):
     return out
 
 
+def _canon_parts(parts):
+    """normal form of a piece list: the common prefix / suffix of a finite-choice text piece is
+    moved into the neighbouring concrete text and adjacent concrete pieces are merged, so that
+    two ways of cutting the same text into pieces compare piece by piece"""
+    import os.path
+
+    from .sym import FV, fv_apply
+
+    out = []
+    for p in parts:
+        if isinstance(p, FV) and len(p.values) >= 2 and all(isinstance(v, str) for v in p.values):
+            vals = list(p.values)
+            pre = os.path.commonprefix(vals)
+            rest = [v[len(pre):] for v in vals]
+            suf = os.path.commonprefix([v[::-1] for v in rest])[::-1]
+            if pre or suf:
+                a, b = len(pre), len(suf)
+                try:
+                    core = fv_apply(lambda x, a=a, b=b: x[a:len(x) - b] if b else x[a:], p)
+                except Exception:  # noqa
+                    out.append(p)
+                    continue
+                out.extend([pre, core, suf])
+                continue
+        out.append(p)
+    merged = []
+    for p in out:
+        if conc(p):
+            if p == "":
+                continue
+            if merged and conc(merged[-1]):
+                merged[-1] = merged[-1] + p
+                continue
+        merged.append(p)
+    return merged
+
+
 def structural_eq(a, b, eq_elem):
     """
     Equality of two structured strings by rule L-join-inj: two strings built as
@@ -515,7 +552,7 @@ def structural_eq(a, b, eq_elem):
         return z3.BoolVal(a == b)
     if conc(b) and not conc(a):
         a, b = b, a
-    pb = _parts(b)
+    pb = _canon_parts(_parts(b))
     if conc(a):
         # a concrete string against a structured one: the concrete string is cut along the
         # structure (unambiguous under the side conditions, which are checked on b's shape)
@@ -527,7 +564,7 @@ def structural_eq(a, b, eq_elem):
         if pa is False:
             return z3.BoolVal(False)
     else:
-        pa = _parts(a)
+        pa = _canon_parts(_parts(a))
     if len(pa) != len(pb):
         return None
     conj = []
